@@ -20,7 +20,7 @@ PROP = "C07"
 LEVEL = "fault_enumeration"
 RULE = ("Tables (local and fake S3; 2-4 retained snapshots chosen by the seed) with a manifest rewritten by a partial delete, a live transaction whose data "
         "file is 2 h old, an in-flight manifest protected by a payload marker, a data file protected by a legacy empty-payload marker, an abandoned (25 h) "
-        "marker, and deletable 2 h old orphans, all reachable files aged 2 h so that any wrong decision deletes something. (a) a fault at EVERY step of a "
+        "marker, uncommitted metadata files of the current and of the NEXT version number (crash leftovers; the latter references only the current snapshot), and deletable 2 h old orphans, all reachable files aged 2 h so that any wrong decision deletes something. (a) a fault at EVERY step of a "
         "clean collection run (local: storage API calls and the os-level calls under them, once as a one-shot error and once persisting for that call on that file; S3 (2 keys per listing page): every request, once as a single transient error that the retry layer absorbs and once failing persistently through all retries), "
         "(b) each of the three listings returning an escaping path, (c) every reachable metadata-plane file x {delete, truncations, random bytes} that an "
         "independent parser rejects, plus the current metadata file as valid JSON without its 'snapshots' section. Oracle: a run that raised deleted nothing; a run that returned deleted no file that is reachable in the UNDAMAGED "
@@ -95,6 +95,17 @@ def build(w, variant):
         prev_bytes = w.fs().get(mlog[-1]["metadata-file"])
         num = _re.match(r"v(\d+)", vcur["metadata_file"]).group(1)
         _put(w, f"metadata/v{num}-0badc0de.metadata.json", prev_bytes)
+    # crash leftover of a LATER version: the metadata file of a transaction that died at its commit point after expiring every older
+    # snapshot - uncommitted (the pointer never named it), and it references fewer files than the committed version does
+    try:
+        cur_doc = json.loads(w.fs().get("metadata/" + vcur["metadata_file"]).decode("utf-8"))
+        cid = cur_doc.get("current_snapshot_id")
+        cur_doc["snapshots"] = [sn for sn in cur_doc.get("snapshots", []) if sn.get("snapshot_id") == cid]
+        cur_doc["snapshot_log"] = [e for e in cur_doc.get("snapshot_log", []) if e.get("snapshot_id") == cid]
+        num1 = int(_re.match(r"v(\d+)", vcur["metadata_file"]).group(1)) + 1
+        _put(w, f"metadata/v{num1}-0badf00d.metadata.json", json.dumps(cur_doc).encode("utf-8"))
+    except Exception:
+        pass
     # orphans
     _put(w, "data/orphan_old.parquet", b"orphan")
     _put(w, "metadata/manifests/manifest_orphan_old.avro", b"orphan")
